@@ -77,7 +77,7 @@ func VerifC08Ownership() {
 			verifFeed(p, rune(c))
 		}
 	}
-	kind := zzverif.Choose("kind", 4)
+	kind := zzverif.Choose("kind", 6)
 	i1, i2 := byte(verifClassByte("i1", 0x20, 0x2F, 0x20, 0x2F)), byte(verifClassByte("i2", 0x20, 0x2F, 0x20, 0x2F))
 	d1, d2 := byte(verifClassByte("d1", 0x30, 0x39, 0x30, 0x39)), byte(verifClassByte("d2", 0x30, 0x39, 0x30, 0x39))
 	var first, second []byte
@@ -94,6 +94,12 @@ func VerifC08Ownership() {
 	case 3:
 		first = []byte{0x1B, ']', d1, d1, 0x07}
 		second = []byte{0x1B, ']', d2, d2, d2, 0x07}
+	case 4: // CSI with a private marker / intermediate and no parameters
+		first = []byte{0x1B, '[', '?', 'u'}
+		second = []byte{0x1B, '[', '>', d2, 'c'}
+	case 5:
+		first = []byte{0x1B, '[', i1, 'p'}
+		second = []byte{0x1B, '[', i2, i2, 'q'}
 	}
 	feed(first)
 	got := verifDrain(p)
@@ -143,40 +149,72 @@ func VerifC08Ownership() {
 	zzverif.Reach("end")
 }
 
-// VerifC08Escape: after a lone ESC the disambiguation timer is armed. If it fires before the
-// next code arrives, exactly one Escape key (C0 0x1B) is delivered and the next code is parsed
-// from ground; if the next code arrives first, no Escape key is delivered and the code
-// continues the escape sequence.
+// VerifC08Escape: ESC followed by one more code X (another ESC, CAN, or a letter) read through
+// the real readRune. Either the disambiguation delay elapses between the two (silence) or X
+// arrives promptly; afterwards the stream stays open and time passes. A lone ESC followed by
+// silence is reported as the Escape key exactly once and X is then parsed from ground; an ESC
+// promptly followed by X is never reported as Escape.
 func VerifC08Escape() {
+	x := []byte{0x1B, 0x18, 'a', 'Z', '['}[zzverif.Choose("x", 5)]
 	p := verifNewParser("")
-	p.state = anywhere(0x1B, p)
-	zzverif.Assert(p.escTimeout != nil && zzverif.PendingTimers() == 1, "timer-armed")
-	fired := zzverif.Bool("silence")
-	if fired {
-		zzverif.FireTimer(0)
-	} else {
-		p.escTimeout.Stop() // readRune: the next code arrived
+	p.r = bufio.NewReader(&verifChunkReader{data: []byte{0x1B, x}, k: 1})
+	step := func() {
+		r := p.readRune()
+		p.mu.Lock()
+		p.state = anywhere(r, p)
+		p.mu.Unlock()
 	}
-	next := byte(verifClassByte("next", 0x40, 0x5A, 0x61, 0x7A))
-	zzverif.Assume(next != 'O' && next != 'P' && next != 'X')
-	p.mu.Lock()
-	p.state = anywhere(rune(next), p)
-	p.mu.Unlock()
-	got := verifDrain(p)
-	if fired {
-		zzverif.Assert(len(got) == 2, "escape-key-then-next-code")
-		if len(got) == 2 {
-			c, ok := got[0].(C0)
-			zzverif.Assert(ok && c == 0x1B, "escape-key-reported-once")
-			pr, ok2 := got[1].(Print)
-			zzverif.Assert(ok2 && pr.Grapheme == string([]byte{next}), "next-code-parsed-from-ground")
+	step() // ESC
+	silence := zzverif.Bool("silence")
+	if silence {
+		zzverif.LetTimePass()
+	}
+	step() // X
+	zzverif.LetTimePass()
+	escapes := 0
+	var rest []Sequence
+	for _, s := range verifDrain(p) {
+		if c, ok := s.(C0); ok && c == 0x1B {
+			escapes++
+			continue
 		}
-	} else {
-		zzverif.Assert(len(got) == 1, "one-sequence")
-		if len(got) == 1 {
-			e, ok := got[0].(ESC)
-			zzverif.Assert(ok && e.Final == rune(next), "prompt-code-continues-the-escape-sequence")
-		}
+		rest = append(rest, s)
+	}
+	wantEsc := 0
+	if silence {
+		wantEsc++
+	}
+	if x == 0x1B {
+		wantEsc++ // the second ESC is itself followed by silence
+	}
+	zzverif.Assert(escapes == wantEsc, "escape-key-reported-exactly-when-esc-is-followed-by-silence")
+	switch {
+	case x == 0x18:
+		zzverif.Assert(len(rest) == 1, "can-executed")
+	case x == 0x1B || x == '[' && !silence:
+		zzverif.Assert(len(rest) == 0, "nothing-else-delivered")
+	case silence:
+		pr, ok := firstPrint(rest)
+		zzverif.Assert(ok && pr.Grapheme == string([]byte{x}), "after-silence-the-code-is-parsed-from-ground")
+	default:
+		e, ok := firstESC(rest)
+		zzverif.Assert(ok && e.Final == rune(x), "prompt-code-continues-the-escape-sequence")
 	}
 	zzverif.Reach("end")
+}
+
+func firstPrint(s []Sequence) (Print, bool) {
+	if len(s) != 1 {
+		return Print{}, false
+	}
+	p, ok := s[0].(Print)
+	return p, ok
+}
+
+func firstESC(s []Sequence) (ESC, bool) {
+	if len(s) != 1 {
+		return ESC{}, false
+	}
+	e, ok := s[0].(ESC)
+	return e, ok
 }
